@@ -1,19 +1,47 @@
-(* C14 — generate is deterministic.
+(* C14 — generate is deterministic: same text in, byte-identical result out.
 
    Every function of the model is a Gallina function, so the model is deterministic by
    construction; the only sources of run-to-run variation in the crate are the two places where
-   a hash collection is iterated, which the model takes as an arbitrary reordering parameter.
-   Proved: the automaton does not depend on the iteration order of the transition set
-   (Oset::from_iter is order-independent: C18).
-   NOT proved: C14_table_fill (build_as_is writes distinct cells, so the order of the action/goto
-   maps does not matter).  Both orders are exercised by the check (model run with insertion and
-   reversed order; crate run repeatedly in-process, on a fresh thread and in child processes). *)
+   a hash collection is iterated (normalize_machine: the HashSet of transitions is collected into
+   an Oset; build_as_is: the two HashMaps of TableBuilder are drained into the flat tables).  The
+   model takes both iteration orders as arbitrary reorderings `ho`.
+   Proved, for every pair of reorderings that are permutations, every digest and every source text:
+     generate_model ho1 d src = Ok text  ->  generate_model ho2 d src = Ok text
+     generate_model ho1 d src = Err e    ->  generate_model ho2 d src = Err e
+   (Oset::from_iter is order-independent; the table cells written are pairwise distinct because the
+   map keys are, so the writes commute.)  That the model lists ALL hash-iteration sites is by
+   inspection of the source; the check runs the crate repeatedly in-process, on a fresh thread and
+   in child processes (fresh RandomState seeds) and requires identical results. *)
 From Coq Require Import List Permutation.
-From Kiki Require Import Base.Ord Base.Chars Data Build.Machine Build.DetProofs.
+From Kiki Require Import Base.Ord Base.Chars Data Build.Machine Build.DetProofs Build.Table Build.TableSpec
+  Pipeline PipelineProofs.
+
+Theorem C14_result_independent_of_hash_order_ok : forall ho1 ho2 digest src text,
+  perm_hash_order ho1 -> perm_hash_order ho2 ->
+  generate_model ho1 digest src = Ok text -> generate_model ho2 digest src = Ok text.
+Proof. exact generate_ok_order_independent. Qed.
+
+Theorem C14_result_independent_of_hash_order_err : forall ho1 ho2 digest src e,
+  perm_hash_order ho1 -> perm_hash_order ho2 ->
+  generate_model ho1 digest src = Err e -> generate_model ho2 digest src = Err e.
+Proof. exact generate_err_order_independent. Qed.
 
 Theorem C14_automaton_independent_of_hash_order : forall ho1 ho2 fu f,
   (forall l, Permutation (ho1 l) l) -> (forall l, Permutation (ho2 l) l) ->
   validated_ast_to_machine ho1 fu f = validated_ast_to_machine ho2 fu f.
 Proof. exact machine_order_independent. Qed.
 
+Theorem C14_table_independent_of_hash_order : forall m f ho1 ho2 t,
+  perm_ho ho1 -> perm_ho ho2 -> machine_to_table ho1 m f = Ok t -> machine_to_table ho2 m f = Ok t.
+Proof. exact table_order_independent_ok. Qed.
+
+(* non-vacuity: the two orders the check runs the model with are permutations *)
+Example C14_orders_used_by_the_check : perm_hash_order ho_id /\ perm_hash_order ho_rev.
+Proof.
+  split; (split; [|split]); intros l; cbn; try reflexivity; apply Permutation_sym, Permutation_rev.
+Qed.
+
+Print Assumptions C14_result_independent_of_hash_order_ok.
+Print Assumptions C14_result_independent_of_hash_order_err.
 Print Assumptions C14_automaton_independent_of_hash_order.
+Print Assumptions C14_table_independent_of_hash_order.
